@@ -45,3 +45,24 @@ func VerifJSReaccept(n int) {
 }
 
 func verifJSReacceptFinding(out []byte) {}
+
+// VerifJSNumberMember (C09/C01): x=(LIT).p with LIT a numeric literal of n symbolic bytes (decimal with dot/exponent,
+// integer, bigint): the output is accepted again by the minifier (member access on a number literal needs care
+// with the dot).
+func VerifJSNumberMember(n int) {
+	lit := vBytes("lit", n)
+	for i := range lit {
+		c := lit[i]
+		vAssume(vB2I('0' <= c && c <= '9')+vB2I(c == '.')+vB2I(c == 'e')+vB2I(c == 'n')+vB2I(c == '-') != 0)
+	}
+	in := append(append([]byte("x=("), lit...), ").p"...)
+	w := &vWriter{}
+	err := (&Minifier{}).Minify(nil, w, &vReader{b: in}, nil)
+	vAssume(err == nil) // the literal is a valid numeric literal
+	vOutput("out", w.buf)
+	out := append(make([]byte, 0, len(w.buf)+1), w.buf...)
+	w2 := &vWriter{}
+	err2 := (&Minifier{}).Minify(nil, w2, &vReader{b: out}, nil)
+	vAssert(err2 == nil, "output of a successful run is accepted again")
+	vReach("end")
+}
